@@ -191,9 +191,12 @@ Proof. vm_compute. repeat split; repeat constructor. Qed.
 (* Non-vacuity of the extra flavour: the handler succeeds on top of containerd's annotations and the CRI reader
    reconstructs the layer with its neighbours and their URLs. *)
 Example C20_nonvacuous_extra :
-  exists l, extra_ann ex_layers [114]%N 7%Z (sha256_pfx ++ repeat 100%N 64) ex_layers = Some l
-  /\ read_cri (fun s => Some s) l
-     = ROk [114]%N (sha256_pfx ++ repeat 97%N 64) [[104; 116; 116; 112; 58; 47; 47; 97]%N]
-           [(sha256_pfx ++ repeat 98%N 64, [[104; 49]%N; [104; 50]%N]); (sha256_pfx ++ repeat 99%N 64, [[104; 51]%N])]
-  /\ prefetch_of l 0%Z = 7%Z.
-Proof. eexists. vm_compute. repeat split. Qed.
+  match extra_ann ex_layers [114]%N 7%Z (sha256_pfx ++ repeat 100%N 64) ex_layers with
+  | Some l =>
+      read_cri (fun s => Some s) l
+      = ROk [114]%N (sha256_pfx ++ repeat 97%N 64) [[104; 116; 116; 112; 58; 47; 47; 97]%N]
+            [(sha256_pfx ++ repeat 98%N 64, [[104; 49]%N; [104; 50]%N]); (sha256_pfx ++ repeat 99%N 64, [[104; 51]%N])]
+      /\ prefetch_of l 0%Z = 7%Z
+  | None => False
+  end.
+Proof. vm_compute. split; reflexivity. Qed.
